@@ -28,6 +28,7 @@ type c11Conn struct {
 	toServer    chan []byte   // client -> server data
 	peerClosed  chan struct{} // closed when the server closes
 	localClosed int32
+	localCh     chan struct{} // closed by Close: like a real socket, a blocked Read returns then
 	writesAfterClose int32
 }
 
@@ -44,6 +45,8 @@ func (c *c11Conn) Read(b []byte) (int, error) {
 	select {
 	case d := <-c.toClient:
 		return copy(b, d), nil
+	case <-c.localCh:
+		return 0, net.ErrClosed
 	case <-c.peerClosed:
 		select {
 		case d := <-c.toClient:
@@ -73,7 +76,12 @@ func (c *c11Conn) Write(b []byte) (int, error) {
 		return 0, errors.New("write: broken pipe")
 	}
 }
-func (c *c11Conn) Close() error                       { atomic.StoreInt32(&c.localClosed, 1); return nil }
+func (c *c11Conn) Close() error {
+	if atomic.CompareAndSwapInt32(&c.localClosed, 0, 1) {
+		close(c.localCh)
+	}
+	return nil
+}
 func (c *c11Conn) LocalAddr() net.Addr                { return c11Addr{} }
 func (c *c11Conn) RemoteAddr() net.Addr               { return c11Addr{} }
 func (c *c11Conn) SetDeadline(t time.Time) error      { return nil }
@@ -96,6 +104,9 @@ func c11Serve(c *c11Conn) {
 		req := <-c.toServer
 		c.toClient <- req
 		replies++
+		if c.id == 0 && replies == 1 && atomic.LoadInt32(&c11Marker) == 1 {
+			c.toClient <- []byte{0, 0, 0, 5, 0xEE}
+		}
 	}
 }
 
@@ -107,7 +118,7 @@ func VerifC11Dial(network, address string, timeout time.Duration) (net.Conn, err
 		atomic.AddInt32(&c11DialFail, -1)
 		return nil, errors.New("dial: connection refused")
 	}
-	c := &c11Conn{id: len(c11Conns), toClient: make(chan []byte, 4), toServer: make(chan []byte, 4), peerClosed: make(chan struct{})}
+	c := &c11Conn{id: len(c11Conns), toClient: make(chan []byte, 4), toServer: make(chan []byte, 4), peerClosed: make(chan struct{}), localCh: make(chan struct{})}
 	c11Conns = append(c11Conns, c)
 	go c11Serve(c)
 	return c, nil
@@ -118,7 +129,20 @@ type c11Proto struct {
 }
 
 func (p *c11Proto) Recv(pkg []byte)                     { atomic.AddInt32(&p.got, 1) }
-func (p *c11Proto) ParsePackage(buff []byte) (int, int) { return protocol.TarsRequest(buff) }
+func (p *c11Proto) ParsePackage(buff []byte) (int, int) {
+	if len(buff) >= 5 && buff[4] == 0xEE && c11Hold != nil {
+		// a frame the protocol layer chokes on for a while (then rejects): keeps this connection's
+		// receiver busy while the rest of the client moves on
+		<-c11Hold
+		return 0, PackageError
+	}
+	return protocol.TarsRequest(buff)
+}
+
+var (
+	c11Hold   chan struct{} // non-nil: the receiver that parses the marker frame waits here
+	c11Marker int32         // 1: the server sends the marker frame, unsolicited, after its first reply
+)
 
 func c11Req(tag byte) []byte { return []byte{0, 0, 0, 5, tag} }
 
@@ -183,6 +207,10 @@ func c11NativeServerAt(at string) (string, func()) {
 					}
 					conn.Write(buf[:n])
 					replies++
+					if id == 0 && replies == 1 && atomic.LoadInt32(&c11Marker) == 1 {
+						time.Sleep(20 * time.Millisecond)
+						conn.Write([]byte{0, 0, 0, 5, 0xEE})
+					}
 				}
 			}(conn, id)
 		}
@@ -257,4 +285,58 @@ func VerifC11Reconnect() {
 	tc.conn.connLock.Unlock()
 	vapi.Check(!closed, "the loss of the old connection does not make the new healthy connection be treated as closed")
 	vapi.Reach("c11-reconnect")
+}
+
+
+// VerifC11IdleClose: the CLIENT closes the connection itself after its idle timeout (the sender's
+// idle check) while the old receiver is still parked in Read; the next call reconnects. Whatever
+// the old connection's goroutines still do afterwards (the receiver waking up late and tearing
+// "its" connection down) must not touch the new connection: the call is answered, one reconnect,
+// the new connection is not treated as closed.
+func VerifC11IdleClose() {
+	c11Conns = nil
+	c11CloseAfter = 1000 // the server never closes here
+	c11DialFail = 0
+	// optionally the old receiver is kept busy (parked in the protocol layer on an unsolicited
+	// frame) until after the reconnect, so that its tear-down of the old connection comes late
+	late := vapi.Bool("latereceiver")
+	c11Hold, c11Marker = nil, 0
+	if late {
+		c11Hold, c11Marker = make(chan struct{}), 1
+	}
+	proto := &c11Proto{}
+	addr, netw := "10.0.0.9:9", "udp"
+	stop := func() {}
+	if !vapi.Engine() {
+		addr, stop = c11NativeServer()
+		defer func() { stop() }()
+		netw = "tcp"
+	}
+	tc := NewTarsClient(addr, proto, &TarsClientConf{Proto: netw, QueueLen: 2, IdleTimeout: 1500 * time.Millisecond, DialTimeout: time.Second})
+	vapi.Check(tc.Send(c11Req(1)) == nil, "first call is accepted")
+	vapi.Check(c11Wait(func() bool { return atomic.LoadInt32(&proto.got) == 1 }, 3000) < 3000, "first call is answered")
+	// idle for longer than the idle timeout: the sender's idle check closes the connection
+	time.Sleep(3600 * time.Millisecond)
+	vapi.Check(tc.Send(c11Req(9)) == nil, "the call after the idle close is accepted")
+	vapi.Check(c11Wait(func() bool { return atomic.LoadInt32(&proto.got) == 2 }, 900) < 900, "the call after the idle close is answered well before any timeout")
+	if late {
+		close(c11Hold) // the old receiver wakes up now, finds its frame bad and tears its connection down
+	}
+	vapi.Quiesce()
+	if !vapi.Engine() {
+		time.Sleep(100 * time.Millisecond)
+	}
+	tc.conn.connLock.Lock()
+	closed := tc.conn.isClosed
+	tc.conn.connLock.Unlock()
+	vapi.Check(!closed, "the loss of the old connection does not make the new healthy connection be treated as closed")
+	// and the new connection really works
+	vapi.Check(tc.Send(c11Req(10)) == nil, "a further call is accepted")
+	vapi.Check(c11Wait(func() bool { return atomic.LoadInt32(&proto.got) == 3 }, 900) < 900, "a further call on the new connection is answered")
+	conns := int(atomic.LoadInt32(&c11Accepted))
+	if vapi.Engine() {
+		conns = len(c11Conns)
+	}
+	vapi.Check(conns == 2, "exactly one reconnect after the idle close")
+	vapi.Reach("c11-idle-close")
 }
